@@ -11,7 +11,9 @@
      ecies.flip     b apub ser haspk bit     -> <decrypt of ser>,<decrypt of ser with that bit flipped>
      ecies.self     d comp msg               -> OK:<serialised>;<message>   (PrivateKey::encrypt_message / decrypt_message)
      ecies.pub      a bpub msg               -> OK:<serialised>             (PublicKey::encrypt_message)
-     ecies.ephemeral b msg                   -> OK:<message>   (random sender key: behavioural round trip through bytes) *)
+     ecies.ephemeral b msg                   -> OK:<message>;<1 iff two calls embed different sender keys>
+                                                (random sender key: behavioural round trip through bytes; the model runs one fixed
+                                                 ephemeral scalar, any valid one gives the same output by C11_decrypt_with_extracted_key) *)
 From BSV Require Import Base.Hex Prim.Secp256k1 Prim.Sha256 Model.EcIface Model.HashApi Model.AesApi Model.Ecies Spec.Bie1.
 Local Open Scope Z_scope.
 
@@ -137,12 +139,12 @@ Definition run (op : string) (args : list string) : string :=
       | KGood d, Some msg =>
           let r := eph_scalar msg in
           let own := to_public_key O d true in
-          out3 (show_o show_msg
+          out3 (show_o (fun p => show_msg p +++ ";1")
                   (do c <- encrypt_ephemeral O r msg own;
                    do c' <- from_bytes O (to_bytes c) true;
                    do sender <- extract_public_key O c';
                    decrypt O c' d sender))
-               (show_msg msg) "-"
+               (show_msg msg +++ ";1") "-"
       | KBad, _ | _, None => "BADARG"
       | _, _ => "ERR|-|-"
       end
